@@ -31,6 +31,7 @@ Base(k) ==
    cols |-> 2,               \* balance columns = participants
    bals |-> "ok",            \* "ok" | "negative" | "ragged" | "noassets"
    locked |-> FALSE,         \* initial allocation has locked funds
+   lockedamt |-> 1,          \* ... worth 1 per asset, or worth nothing (0): a sub-allocation is there all the same
    peers |-> "SR",           \* peers list relative to (sender, receiver); ledger and virtual only
    parent |-> "known",       \* sub: "known" | "unknown"
    assets |-> "same",        \* sub / virtual, relative to the parent: "same" | "other" | "extra" | "backend"
@@ -72,7 +73,7 @@ Mutants(k) ==
   \cup { <<"cd0", [b EXCEPT !.cd = 0]>> }
   \cup { <<"cols", [b EXCEPT !.cols = n]>> : n \in {1, 3} }
   \cup { <<"bals", [b EXCEPT !.bals = x]>> : x \in {"negative", "ragged", "noassets"} }
-  \cup { <<"locked", [b EXCEPT !.locked = TRUE]>> }
+  \cup { <<"locked", [b EXCEPT !.locked = TRUE]>>, <<"locked0", [b EXCEPT !.locked = TRUE, !.lockedamt = 0]>> }
   \cup (IF k \in {"ledger", "virtual"}
         THEN { <<"fa", [b EXCEPT !.fa = "shifted"]>> } ELSE {})
   \cup (IF k \in {"ledger", "virtual"}
